@@ -572,6 +572,10 @@ def generate_real_spherical_harmonics_scipy(l_max: int, theta: np.ndarray, phi: 
             f"theta and phi must be 1D arrays, got theta.ndim={theta.ndim}, phi.ndim={phi.ndim}"
         )
 
+    # SciPy has no extended-precision loops: hand it doubles (the other generator accepts longdouble)
+    if theta.dtype == np.longdouble:
+        theta = theta.astype(float)
+        phi = phi.astype(float)
     # sph_vals (i, j) corresponds to degree i and order j for all 0 <= i <= n and -m <= j <= m
     sph_vals = sph_harm_y_all(l_max, l_max, phi, theta)
     # SciPy evaluates the associated Legendre functions with |sin(phi)|.  Outside the principal
@@ -763,6 +767,11 @@ def generate_derivative_real_spherical_harmonics(l_max: int, theta: np.ndarray, 
 
     """
     num_pts = len(theta)
+    # SciPy (sph_harm_y below) has no extended-precision loops: work on doubles
+    if theta.dtype == np.longdouble:
+        theta = theta.astype(float)
+    if phi.dtype == np.longdouble:
+        phi = phi.astype(float)
     # Shape (Derivs, Spherical, Pts)
     output = np.zeros((2, int((l_max + 1) ** 2), num_pts), dtype=np.longdouble)
 
